@@ -54,6 +54,18 @@ def match(pattern, node, binds=None):
         return binds
     if type(pattern) is not type(node):
         return None
+    if isinstance(pattern, ast.Compare) and len(pattern.ops) == 1 and \
+            isinstance(pattern.ops[0], (ast.Eq, ast.NotEq)) and \
+            len(node.ops) == 1 and type(node.ops[0]) is type(pattern.ops[0]):
+        # symmetric operators: either order of the operands
+        for a, b in ((node.left, node.comparators[0]),
+                     (node.comparators[0], node.left)):
+            trial = dict(binds)
+            if match(pattern.left, a, trial) is not None and \
+                    match(pattern.comparators[0], b, trial) is not None:
+                binds.update(trial)
+                return binds
+        return None
     for f in pattern._fields:
         if f == "ctx":
             continue
@@ -819,7 +831,8 @@ class StmtText(str):
                     tree = ast.parse(cand, mode=mode)
                 except SyntaxError:
                     continue
-                return mode, tree
+                from .alpha import order_compares
+                return mode, order_compares(tree)
         return None, None
 
     def _header(self, text):
